@@ -73,7 +73,7 @@
  "enforce": ["ba_find_first_zero"],
  "loop_contracts": true,
  "sources": ["lib/ext2fs/bitops.c"],
- "defines": ["BA_PROBE_FIXED=64", "BA_PROBE_MIS=0"],
+ "defines": ["BA_PROBE_START01=1", "BA_MAX_BITS=128"],
  "backend": "cadical",
  "timeout": 600,
  "native": false
